@@ -32,6 +32,8 @@ ASSUMPTIONS = [
     "compiled kernel at one numba thread must equal simulated T=1 bit for bit (checked on a sample every batch)",
     "points within 1e-11 (relative, in bin units) of a bin edge may fall on either side; a point exactly on the lower limit belongs to bin 0",
     "summation order inside a bin is unspecified: sums compared with tolerance 64 ulp x sum|v|",
+    "a float32 value layer may be accumulated in float32 (judged at 64 float32 ulps); coordinates are float64 or integers (single-precision coordinates were tried and withdrawn, DESIGN 9.15)",
+    "the large-input runs of the anchor are direct executions of the compiled kernel (one numba thread; one stress run with all threads whose record is coarse on purpose)",
 ]
 REAL_STUB = {
     "real": ["osyris.histogram2d front-end", "parse_layer / Layer", "Array/Vector", "unit handling", "hist2d kernel source (executed by CPython)"],
